@@ -16,7 +16,7 @@ SPEC = {
     "build_comp": "fwrules",
     "props": ["props/C17.v"],
     "corr": ["corr/Firewall_corr.v"],
-    "comps": [{"comp": "fwrules_addr", "n_quick": 500, "n_thorough": 20000}, {"comp": "fwreload", "n_quick": 60, "n_thorough": 2000}, {"comp": "sysmon_C17", "e2e": True, "n_quick": 12, "n_thorough": 150}],
+    "comps": [{"comp": "fwrules_addr", "n_quick": 500, "n_thorough": 8000}, {"comp": "fwreload", "n_quick": 60, "n_thorough": 2000}, {"comp": "sysmon_C17", "e2e": True, "n_quick": 12, "n_thorough": 150}],
     "trusted": ["model/Firewall.v drop/remote_check/hostinfo_of/routable are hand-written mirrors of Firewall.Drop, HostInfo.buildNetworks and NewFirewall (tied by correspondence)",
                 "lib/Ip.v models bart.Lite / bart.Table as prefix sets with contains / longest-prefix-match semantics",
                 "HostInfo.vpnAddrs = addresses of the peer certificate's networks, in order (handshake_manager.go; built that way by the shim)"],
